@@ -151,6 +151,8 @@ def cases(tier, seed):
     out.append({"id": "algebra:complex-constants", "kind": "cplxconst",
                 "tier": tier})
     out.append({"id": "ndarray:elementwise", "kind": "ndelem", "tier": tier})
+    out.append({"id": "algebra:numpy-binary-functions", "kind": "npbin",
+                "tier": tier})
     out.append({"id": "ndarray:array-valued:guess-and-scalar-sample",
                 "kind": "ndarr", "part": "guess", "tier": tier})
     # NOT asserted (lead's decision): sample(size=n) of an array-valued
@@ -2288,6 +2290,63 @@ RUN = {"uniform": _run_uniform, "gaussian": _run_gaussian,
        "cplxconst": _run_cplxconst,
        "ndarr": _run_ndarr, "tree1": _run_tree1, "tree2": _run_tree2,
        "tree2u": _run_tree2u, "tree3": _run_tree3}
+
+
+def _run_npbin(case, ck, info):
+    """NumPy's two-argument functions with a prior as either argument: the
+    guess and the samples are the function of the base guess / samples"""
+    from holopy.core import prior
+    bases = [("U(1,2)", lambda: prior.Uniform(1.0, 2.0, 1.25)),
+             ("U(-3,-1)", lambda: prior.Uniform(-3.0, -1.0, -2.5)),
+             ("G(-2.5,.1)", lambda: prior.Gaussian(-2.5, 0.1)),
+             ("BG(.7,.2,0,2)", lambda: prior.BoundedGaussian(0.7, 0.2, 0.0,
+                                                             2.0))]
+    consts = [1.0, -0.7, 2.5, -3.0]
+    funcs = [("fmod", np.fmod), ("remainder", np.remainder),
+             ("mod", np.mod), ("minimum", np.minimum),
+             ("maximum", np.maximum), ("hypot", np.hypot),
+             ("arctan2", np.arctan2), ("copysign", np.copysign),
+             ("subtract", np.subtract), ("true_divide", np.true_divide),
+             ("power", np.power), ("floor_divide", np.floor_divide)]
+    acc = []
+    for bname, mk in bases:
+        for fname, fn in funcs:
+            for c in consts:
+                for side in ("L", "R"):
+                    P = mk()
+                    txt = ("np.%s(%s, %r)" if side == "L" else
+                           "np.%s(%r, %s)") % ((fname, bname, c) if
+                                               side == "L" else
+                                               (fname, c, bname))
+                    try:
+                        d = fn(P, c) if side == "L" else fn(c, P)
+                    except TypeError:
+                        continue      # a refusal is not a wrong value
+                    ck.trans += 1
+                    g0 = P.guess
+                    want = fn(g0, c) if side == "L" else fn(c, g0)
+                    got = d.guess
+                    same = (got == want) or (got != got and want != want)
+                    ck.true("derived-guess", same, "guess of %s is %r, the "
+                            "function of the base guess %r is %r" %
+                            (txt, got, g0, want))
+                    np.random.seed(1234)
+                    s1 = np.asarray(d.sample(5), dtype=float)
+                    np.random.seed(1234)
+                    b1 = np.asarray(P.sample(5), dtype=float)
+                    w1 = fn(b1, c) if side == "L" else fn(c, b1)
+                    ck.trans += 2
+                    ok = s1.shape == w1.shape and bool(np.all(
+                        (s1 == w1) | ((s1 != s1) & (w1 != w1))))
+                    ck.true("derived-sample", ok, "samples of %s are %r, "
+                            "the function of the base samples %r is %r" %
+                            (txt, s1.tolist(), b1.tolist(),
+                             np.asarray(w1).tolist()))
+                    acc.append(np.nan_to_num(s1))
+    return digest(*acc)
+
+
+RUN["npbin"] = _run_npbin
 
 
 def run_case(case):
